@@ -31,7 +31,11 @@ func TestC05(t *testing.T) {
 		groups := hx.Partition(in, keyCols, g.groupNull)
 
 		var res qframe.QFrame
-		if perr := hx.Safely(func() { res = g.d.QF.Distinct(g.confFns()...) }); perr != nil {
+		confFns := g.confFns()
+		if rapid.IntRange(0, 3).Draw(t, "secondcall") == 0 {
+			_ = hx.Safely(func() { _ = g.d.QF.Distinct(confFns...) }) // the second call with the same option values counts
+		}
+		if perr := hx.Safely(func() { res = g.d.QF.Distinct(confFns...) }); perr != nil {
 			t.Fatalf("Distinct panicked: %v\n%s", perr, desc())
 		}
 		if res.Err != nil {
